@@ -338,6 +338,8 @@ pub struct RefRun {
     pub out: Vec<u8>,
     pub outcome: RefOutcome,
     pub steps: u64,
+    /// statements started (what rrss's H3 hook counts)
+    pub stmts: u64,
     pub stats: BTreeMap<&'static str, u64>,
     pub reads: u64,
     pub max_call_depth: usize,
@@ -417,6 +419,7 @@ pub struct Interp<'i> {
     in_pos: usize,
     pub out: Vec<u8>,
     steps: u64,
+    stmts: u64,
     budget: Budget,
     stats: BTreeMap<&'static str, u64>,
     reads: u64,
@@ -439,6 +442,7 @@ pub fn run(p: &Program, input: &[u8], budget: &Budget) -> RefRun {
         in_pos: 0,
         out: Vec::new(),
         steps: 0,
+        stmts: 0,
         budget: budget.clone(),
         stats: BTreeMap::new(),
         reads: 0,
@@ -476,6 +480,7 @@ pub fn run(p: &Program, input: &[u8], budget: &Budget) -> RefRun {
         out: it.out,
         outcome,
         steps: it.steps,
+        stmts: it.stmts,
         stats: it.stats,
         reads: it.reads,
         max_call_depth: it.max_call_depth,
@@ -690,8 +695,12 @@ impl<'i> Interp<'i> {
     }
 
     fn pronoun_name(&mut self) -> X<Name> {
+        self.stat("pronoun_uses");
         match self.pron.clone() {
-            Pron::None => err("missing_pronoun_referent"),
+            Pron::None => {
+                self.stat("pronoun_uses_without_referent");
+                err("missing_pronoun_referent")
+            }
             Pron::Unspec => dc("pronoun where the referent is not specified"),
             Pron::Known(n) => Ok(n),
         }
@@ -1173,13 +1182,17 @@ impl<'i> Interp<'i> {
                     self.stat("breaks");
                     return Ok(Flow::Normal);
                 }
-                Flow::Return => return Ok(Flow::Return),
+                Flow::Return => {
+                    self.stat("returns_through_loop");
+                    return Ok(Flow::Return);
+                }
             }
         }
     }
 
     fn stmt(&mut self, s: &Stmt) -> X<Flow> {
         self.step()?;
+        self.stmts += 1;
         self.named.clear();
         let start_pron = self.pron.clone();
         match s {
@@ -1247,6 +1260,9 @@ impl<'i> Interp<'i> {
                     let f = self.block(then);
                     self.pop_scope();
                     self.pron = Pron::None;
+                    if let Ok(Flow::Return) = f {
+                        self.stat("returns_through_if");
+                    }
                     return f;
                 } else if let Some(e) = els {
                     self.stat("else_taken");
@@ -1254,6 +1270,9 @@ impl<'i> Interp<'i> {
                     let f = self.block(e);
                     self.pop_scope();
                     self.pron = Pron::None;
+                    if let Ok(Flow::Return) = f {
+                        self.stat("returns_through_if");
+                    }
                     return f;
                 } else {
                     // no block ran: whether the referent survives is open
